@@ -206,7 +206,7 @@ SOUP = ['0', '1', '2', '3', '4', '7', '10', '-1', '-2', '-0', '00', '1=2', '2=3=
         '"', '"""', '[[', ']]', '((', '))', '/*/*', '*/*/', '#*/', '"#', '"/*',
         '[{x}', '[{}]', '[{0.a}]', '[%s]', '[%(x)s', '{0}', '%d', '０', '٣', '²', '﻿', '\x00', '\x85', ' ', '\x1c', 'é', '李', '\U0001f600', '9' * 30]
 
-IO_FAULTS = ('ENOENT', 'EACCES', 'EISDIR', 'EMFILE', 'EIO-before', 'EIO-after')
+IO_FAULTS = ('ENOENT', 'EACCES', 'EISDIR', 'EMFILE', 'EIO-before', 'EIO-after', 'ENOMEM-read')
 
 
 def soup(rnd):
@@ -423,7 +423,7 @@ def evaluate(R, data, io_fault=None, entry='path', clock=False, path=None):
     res = dict(outcome=None, viol=[], msg=None, site=None, steps=0, closed=None)
     fs = simfs.SimFS()
     open_fault = io_fault if io_fault in ('ENOENT', 'EACCES', 'EISDIR', 'EMFILE') else None
-    read_fault = io_fault if io_fault in ('EIO-before', 'EIO-after') else None
+    read_fault = io_fault if io_fault in ('EIO-before', 'EIO-after', 'ENOMEM-read') else None
     fs.put(path or SIM_PATH, data, open_fault=open_fault, read_fault=read_fault)
     text = None
     if entry == 'data':
@@ -580,7 +580,8 @@ def _constructs_alone(R, data, entry, path, rule):
         return '?'          # enough confirmations in this worker; treat like the confirmed ones
     _ALONE_CALLS[0] += 1
     try:
-        p = subprocess.run([sys.executable, '-c', _ALONE], input=json.dumps(dict(
+        # the confirming interpreter runs in the same mode (-O or not) as this one
+        p = subprocess.run([sys.executable] + (['-O'] if sys.flags.optimize else []) + ['-c', _ALONE], input=json.dumps(dict(
             verif=VERIF_DIR, repo=R.path, data=base64.b64encode(data).decode('ascii'), entry=entry, path=path,
             rule=rule)), env=dict(os.environ, PYTHONHASHSEED='0'), capture_output=True, text=True, timeout=120,
             check=False)
@@ -885,6 +886,24 @@ def bulk_bases(seed):
     lines += ['"Name %d"' % i for i in range(1, n + 1)]
     lines.append('"three thousand candidates"')
     out.append(('bulk/candidates', ("\n".join(lines) + "\n").encode()))
+    # beyond 16-bit limits: more than 65 535 non-empty ballot lines; more than 65 535 candidates with equal-rank groups
+    # that name the highest ids (a counter, stamp or id packed into an unsigned short overflows exactly here)
+    n = 12
+    lines = ["%d 4" % n]
+    for i in range(66000):
+        k = 1 + i % 5
+        lines.append("1 %s 0" % " ".join(str(1 + (i * 7 + j * 5) % n) for j in range(k) if True))
+    lines.append("0")
+    lines += ['"C%d"' % i for i in range(1, n + 1)]
+    lines.append('"sixty-six thousand ballot lines"')
+    # no repeats inside a line: 1 + (i*7 + j*5) % 12 for j < 5 are distinct (5*j mod 12 distinct for j = 0..4)
+    out.append(('bulk/ballots-66k', ("\n".join(lines) + "\n").encode()))
+    n = 66000
+    lines = ["%d 2" % n, "70000 1 2 3 0", "5 65999=66000 65537 1 0", "3 65536=2 65535 0", "1 66000 0"]
+    lines.append("0")
+    lines += ['"N%d"' % i for i in range(1, n + 1)]
+    lines.append('"sixty-six thousand candidates"')
+    out.append(('bulk/candidates-66k', ("\n".join(lines) + "\n").encode()))
     return out
 
 
@@ -896,7 +915,7 @@ def work_bulk(R, seed, j):
     rnd = rng(seed, 'disk-bulk-faults', j)
     n = len(base)
     cases = [[]]
-    for _ in range(6):
+    for _ in range(6 if j < 2 else 2):
         cases.append([rnd.choice((['truncate', rnd.randint(0, n)], ['drop', rnd.randrange(n), rnd.randint(1, 40)],
                                   ['bitflip', rnd.randrange(n), rnd.randrange(8)],
                                   ['dup', rnd.randrange(n), rnd.randint(1, 2000)],
@@ -959,7 +978,8 @@ def replay_object(R, seed, v, reduced=None):
     "replay file content"
     return dict(property='C16', verif_seed=seed, engine='disk', base_name=v['base_name'], base_b64=v['base_b64'],
                 faults=v['faults'], aux_b64=v.get('aux_b64'), io_fault=v.get('io_fault'), entry=v.get('entry', 'path'),
-                sim_path=v.get('sim_path'), low_digits=v.get('low_digits', False), reduced_b64=reduced,
+                sim_path=v.get('sim_path'), low_digits=v.get('low_digits', False), optimised=bool(v.get('optimised')),
+                reduced_b64=reduced,
                 violation={k: v.get(k) for k in ('cls', 'exc', 'frame', 'line_text', 'msg')}, tree=R.tree)
 
 
@@ -994,8 +1014,10 @@ def minimise(R, seed, v):
     "ddmin over the fault list, then over the lines and tokens of the faulted file (kept as `reduced`)"
     signal.signal(signal.SIGALRM, _alarm)
     target = vclass(v)
-    if v['cls'] == 'hang':
-        return replay_object(R, seed, v)        # every test would cost the full time limit: keep the case as found
+    if v['cls'] == 'hang' or v.get('optimised'):
+        # hang: every test would cost the full time limit; optimised: shows only in an interpreter started with -O,
+        # which this process is not -- keep the case as found
+        return replay_object(R, seed, v)
     base = base64.b64decode(v['base_b64'])
     aux = base64.b64decode(v['aux_b64']) if v.get('aux_b64') else b''
     io = v.get('io_fault')
